@@ -234,7 +234,15 @@ impl<'r, 'c, 's, W: Write> Serializer for DatumSerializer<'r, 'c, 's, W> {
 
 	fn serialize_bytes(self, v: &[u8]) -> Result<Self::Ok, Self::Error> {
 		match self.schema_node {
-			SchemaNode::Bytes | SchemaNode::String => self.state.write_length_delimited(v),
+			SchemaNode::Bytes => self.state.write_length_delimited(v),
+			SchemaNode::String => {
+				if std::str::from_utf8(v).is_err() {
+					return Err(SerError::new(
+						"Can't serialize &[u8] as String: it is not valid UTF-8",
+					));
+				}
+				self.state.write_length_delimited(v)
+			}
 			SchemaNode::Fixed(Fixed { size, .. }) => {
 				if *size != v.len() {
 					Err(SerError::new(
